@@ -167,14 +167,10 @@ def open_row_is_exchange_open(ctx):
     """14:30 is both the exchange's opening instant and the time stamp of a bar's Open row; 21:00 both the close and the Close row (C06-S4, C04-S6)."""
     from ..lib import time_of_day, loc_attr
     ps = summarise(ctx, 'CSVDailyBarDataSource._convert_bar_frame_into_bid_ask_df', policy=default_policy)
+    from .c06 import row_offsets
     offs = {}
     for p in normal(ps):
-        for w in heap_writes(p):
-            if w.how == 'aug' and w.delta and w.delta[1] == 'Add':
-                tod = time_of_day(w.delta[0])
-                for s in T.subterms(w.loc):
-                    if s[0] == 'cmp' and s[1] == '==' and (s[2][0] == 'str' or s[3][0] == 'str'):
-                        offs[s[2][1] if s[2][0] == 'str' else s[3][1]] = tod
+        offs.update(row_offsets(p))
     ps = summarise(ctx, 'SimulatedExchange.__init__', policy=default_policy)
     ex = {}
     for p in normal(ps):
